@@ -247,7 +247,11 @@ def extract_branch_results_with_internals(net, branch_results, table_name,
             pt = placement_table[connected_ind]
 
             for i, (res_name, entry) in enumerate(res_mean_hydraulics):
-                res_table[res_name].values[pt] = res[i + 3][connected_ind] / num_internals
+                if entry == "dp_frict_loss":
+                    # the friction loss of a branch is the sum of the losses of its sections
+                    res_table[res_name].values[pt] = res[i + 3][connected_ind]
+                else:
+                    res_table[res_name].values[pt] = res[i + 3][connected_ind] / num_internals
         if len(res_branch) > 0:
             use_numba = get_net_option(net, "use_numba")
             _, sections, connected_sum = _sum_by_group(use_numba, idx_pit, np.ones_like(idx_pit),
